@@ -146,6 +146,18 @@ func (g *Gen) standalone() (hd, text string, flags int, kind string) {
 		return fmt.Sprintf("urihdrs %d", r.N(6)), mut(lst + r.Pick("", eol+tailCh, " x", ",z")), fl, "urihdrs"
 	default:
 		q := r.Quoted()
+		if r.P(15) { // a quoted string far longer than any fixed-size look-back (lengths around 255 / 256 and beyond)
+			q = "\"" + strings.Repeat(r.Pick("a", "ab", "x y", "\\\\", "\xc3\xa9"), 1)
+			n := []int{250, 254, 255, 256, 257, 300, 700}[r.N(7)]
+			for len(q) < n {
+				q += r.Pick("a", "b", " ", "\\\"", ";", "q")
+			}
+			q += "\""
+			if r.P(50) {
+				fl := []int{0, 1, 16, 64}[r.N(4)]
+				return "tokparam", "n=" + q + r.Pick(";x=y"+eol+tailCh, eol+tailCh, ",z"), fl, "tokparam-long-quoted"
+			}
+		}
 		return "skipq", mut(q[1:] + r.Pick("", "x", " ", eol)), 0, "skipquoted"
 	}
 }
@@ -552,6 +564,17 @@ func ip6Shape(r *Rng) string {
 func (g *Gen) genC11() {
 	g.exhShift("C11", "")
 	r := g.r
+	// degenerate lists (empty, blank, only a separator / a line end) in every option mode incl. the end-of-input
+	// option: an "empty buffer" test must look at what is left after the offset, not at the absolute length
+	for _, hd := range []string{"tokparam", "uriparams 0", "uriparams 2", "urihdrs 0", "urihdrs 2"} {
+		for _, text := range []string{"", " ", "\t ", "\r\n", "\r\nX", ";", "&", "a", "a=", "=", "?", ","} {
+			for _, fl := range []int{0, 8, 64, 64 | 8, 128, 128 | 8, 1 | 8, 2 | 8, 4 | 8, 16 | 8, 32 | 8} {
+				for _, junk := range []string{"x", "sip:a@b.c", "\x00\x00\x00"} {
+					g.add(shiftCase("C11", hd, text, junk, []int{len(text)}, fl, "", "degenerate-list"))
+				}
+			}
+		}
+	}
 	n := g.budget(2500, 80000)
 	nlimit := 0
 	for i := 0; i < n; i++ {
